@@ -174,6 +174,12 @@ func (vc *VC) spec(e CExpr, env *SpecEnv) Term {
 		if x.Op == "!" {
 			return tNot(v)
 		}
+		if x.Op == "*" {
+			if si := vc.ss.info[v.Sort]; si != nil && si.Kind == "ptr" {
+				return Term{fmt.Sprintf("(val.%s %s)", v.Sort, v.S), vc.ss.sortOf(si.Elem), si.Elem}
+			}
+			return vc.specFail("* applied to a non-pointer (%s)", v.Sort)
+		}
 		return Term{fmt.Sprintf("(- %s)", v.S), SInt, nil}
 	case CBinary:
 		return vc.specBinary(x, env)
